@@ -17,5 +17,32 @@ PROPS = {
 }
 
 
+PROPS["C01"] = {
+    "level": "proof",
+    "verus": ["stdext_groupingmap", "texlang_savestack", "texlang_cmdmap", "stdlib_prefix"],
+    "kani": [],
+    "unverified_callers": [
+        "texlang/src/vm/mod.rs VM::run_impl dispatch, VM::begin_group/end_group (three stacks pushed/popped in lockstep - by inspection)",
+        "font save stack (inlined in run_impl)",
+        "SaveStackMap::restore (writes each saved value back; consuming HashMap iteration)",
+        "supported_type_impl! macro: the closures passed as map_getter",
+        "impl BackingContainer for Vec<Option<V>> (resize_with unsupported) - assumed to meet the trait contract",
+        "\\def/\\let/\\countdef/\\catcode primitives' own parsing",
+    ],
+    "assumptions": ["Clone is the identity and the std hash/eq model holds for the key types (usize, char, CsName, TypedVariable)"],
+}
+PROPS["C20"] = {
+    "level": "proof",
+    "verus": ["stdext_groupingmap"],
+    "kani": [],
+    "unverified_callers": [
+        "IterAll / FromIterator replay (GAT iterators, rejected by Verus) - the 'replay rebuilds the same map' clause is NOT decided",
+        "Interner (str/String) - NOT decided",
+        "Tag::new / StaticTag uniqueness across threads - concurrency, not applicable to either verifier",
+    ],
+    "assumptions": ["Clone is the identity and the std hash/eq model holds for the key types"],
+}
+
+
 def props():
     return PROPS
